@@ -149,8 +149,8 @@ type c16World struct {
 	handles  [2]*kv.DB // in-process handles (actors 0 and 1)
 	stale    [2]*kv.DB // handles that were closed before
 	staleKid map[int]bool
-	holder   int       // -1 none
-	damaged  string    // pending damage kind ("" none)
+	holder   int    // -1 none
+	damaged  string // pending damage kind ("" none)
 	rejected int
 	reopened int
 	released bool
